@@ -580,6 +580,13 @@ class Check(CheckBase):
             rep.traces += len(OVERHANG_OPS) ** shard["depth"]
             return
         with cfg_ctx(cfg):
+            # the views are built by the code under test (a late window reads its parent first): a failure there is a finding
+            st0, v0 = guarded(lambda: build_pair(cfg) if "pair" in cfg else build(cfg), 10.0)
+            if st0 != "ok" and not isinstance(v0, core.HarnessError):
+                rep.case({"cfg": cfg, "ops": []}, ok=False, klass="build-failed", nontrivial=True,
+                         sig=f"{cfg.get('kind', cfg.get('pair'))}:build-" + ("raised:" + exc_sig(v0) if st0 == "exc" else "hang"),
+                         detail={"observed": repr(v0)[:200]})
+                return
             if shard["mode"] == "pairbfs":
                 self._pair_bfs(cfg, rep, shard.get("maxdepth", 0))
             elif shard["mode"] == "bfs":
@@ -838,7 +845,11 @@ class Check(CheckBase):
                 rep.case(case, ok=True)
             return
         with cfg_ctx(cfg):
-            stream, model, width = self._fresh(cfg)
+            st0, v0 = guarded(lambda: self._fresh(cfg), 10.0)
+            if st0 != "ok":
+                rep.case(case, ok=False, klass="build-failed", detail={"observed": repr(v0)[:200]}, sig=f"{cfg['kind']}:build-failed")
+                return
+            stream, model, width = v0
             for i, op in enumerate(case["ops"]):
                 ok, klass, detail, dead = step(stream, model, op, width)
                 if not ok:
